@@ -71,6 +71,11 @@ CHECKS = {
             "All class layouts of length 2..5 (quick) / 2..6 (thorough) with every class present, all labeled/unlabeled splits, samples_per_class None/1..4, chunk sizes 1..3 x 1..3, the three length modes, weight vectors over {0,1,3}, sizes, world sizes 1..3: exact per-class counts over all ranks, even reuse, strict alternation, duplicate-free aligned pool windows, equal and differently seeded rank streams (two large layouts), no repeated index, valid indices and the documented epoch length are checked on the real samplers for seeds 0..2 x epochs 0..1 and, for small pools, for every answer of every random draw.",
             "Trusted: oracle formulas in kdverif/props/c13.py taken from the samplers' docstrings; weighted sampler sizes above the number of non-zero weights are outside the domain.",
             "DESIGN.md section 5 C13"),
+    "C14": ("E1-choice", "exploration",
+            "stateless choice-point exploration (ChoiceRng via set_rng: integer draws over their full range, uniform draws at range ends and middle) over a grid of input sizes and configurations, with coordinate-coded inputs decoded exactly",
+            "Random crop / two-crop / resized crop / simple crop, random erasing, spec-augment, the segmentation-pair transforms (direct and through the segmentation-transform wrapper, seeded and unseeded), patchify/unpatchify (also around patch shuffles with the recorded permutation) and all normalisers: image sizes {1..6}^2 plus extreme aspects, targets 1..6 and non-square, paddings, pad_if_needed, tensor and PIL, three scale and two ratio ranges, mask parameters up to size+1, every patch size dividing the image; full product of RNG answers where small, otherwise every execution with <=2 non-default answers (cap reported). Output size, box inside the (padded) input, output == torchvision functional op applied by hand with the recorded parameters, one admissible erased rectangle / contiguous bands, mask pixel decodes to the same source pixel as the image pixel, inverses exact (normalisers within 1e-5).",
+            "Trusted: the coordinate coding / decoding in kdverif/props/c14.py and torchvision's functional ops as the by-hand reference; interpolation forced to nearest; continuous draws only at alphabet points.",
+            "DESIGN.md section 5 C14"),
     "C15": ("E2-bfs", "model_checking",
             "BFS over factor sequences with the parameter vector as state (path-independence oracle) + lock-step simulation of round-robin workers for the scheduled transform",
             "Every transform class that supports strength scaling (found by introspection, 2-3 constructor settings each) and compositions: all factor sequences of length <=3 (quick, 4 factors) / <=4 (thorough, 5 factors) are applied to real objects; the numeric parameter vector after a path ending in f must equal fresh.scale(f), f=1 must restore the constructed ranges exactly, f=0 must be the weakest setting, every bound must move monotonically and og_* values must never change; sampled parameters at the range ends (ChoiceRng) tie the state to behaviour. Scheduled transform: 1..4 simulated round-robin workers x batch sizes 1..3 x 1..8 batches x three budget kinds; strength in ctx and applied to every sample of global batch b must equal the schedule's value at b.",
